@@ -5,6 +5,7 @@ import (
 	"go/ast"
 	"go/token"
 	"strconv"
+	"sort"
 	"strings"
 
 	"pdverif/internal/goast"
@@ -309,6 +310,49 @@ func genC09(repo string) (string, error) {
 		}
 	}
 
+	// who changes the running set: every function of operator_controller.go that assigns oc.operators, assigns one of its
+	// entries or deletes one (a new way to empty or fill the set - an admin "cancel all", a recovery path - has to cancel,
+	// bury and record like the modelled ones), and the exported methods of the controller (the entry points the driver
+	// and the model know)
+	var writers, exported []string
+	for _, d := range cf.AST.Decls {
+		fd, ok := d.(*ast.FuncDecl)
+		if !ok || fd.Body == nil {
+			continue
+		}
+		if fd.Recv != nil && len(fd.Recv.List) == 1 && strings.Contains(cf.Src(fd.Recv.List[0].Type), "OperatorController") && ast.IsExported(fd.Name.Name) {
+			exported = append(exported, fd.Name.Name)
+		}
+		writes := false
+		isRunningSet := func(e ast.Expr) bool {
+			if ix, ok := e.(*ast.IndexExpr); ok {
+				e = ix.X
+			}
+			sel, ok := e.(*ast.SelectorExpr)
+			return ok && sel.Sel.Name == "operators"
+		}
+		ast.Inspect(fd.Body, func(n ast.Node) bool {
+			switch x := n.(type) {
+			case *ast.AssignStmt:
+				for _, l := range x.Lhs {
+					if isRunningSet(l) {
+						writes = true
+					}
+				}
+			case *ast.CallExpr:
+				if id, ok := x.Fun.(*ast.Ident); ok && id.Name == "delete" && len(x.Args) == 2 && isRunningSet(x.Args[0]) {
+					writes = true
+				}
+			}
+			return true
+		})
+		if writes {
+			writers = append(writers, fd.Name.Name)
+		}
+	}
+	sort.Strings(exported)
+	o.strList("running_set_writers", writers, "operator_controller.go: functions that assign or delete entries of oc.operators, source order")
+	o.strList("controller_entry_points", exported, "operator_controller.go: exported methods of *OperatorController")
 	hf, err := goast.Load(repo, "server/schedule/hbstream/heartbeat_streams.go")
 	if err != nil {
 		return "", err
